@@ -78,6 +78,8 @@ func craftedInputs() [][]byte {
 		"795190", "78", "7a51905190", "485190515a", "4851905190 5a", "57519051905a", // containers holding references to themselves
 		"71045b696e74795191", "72045b696e747951917951 92", "56045b696e7491795191", // typed list whose element is a self-containing list
 		"4d00519051905a", "4301619101626051 90", // map / object referring to itself
+		"4305496e6e6572920001736090 0161", "4305496e6e65729201610173609001 61", // known class (Inner) defined with an EMPTY field name, then a well-formed Inner: the second must still decode
+		"4305496e6e657292016101736090 0161", "4305496e6e65729200006090 90", "4305496e6e6572910060 90",
 	} {
 		out = append(out, h(s))
 	}
